@@ -8,7 +8,7 @@
   "flags": [],
   "driver": "inline"
  },
- "detail": "C19: run_inline reported categories ['fix', 'update'] but the report session lists ['fix', 'trim', 'update']\n________________________________ test_alt_list _________________________________\n\n    def test_alt_list():\n>       assert [0, 2, 29] == snapshot([1, 1 + 1, 3])\nE       assert [0, 2, 29] == [1, 2, 3]\nE         \nE         At index 0 diff: 0 != 1\nE         Use -v to get more diff\n\ntest_something.py:5: AssertionError\n________________________________ test_alt_dict _________________________________\n\n    def test_alt_dict():\n        s = snapshot({\"a\": 1, \"b\": 0, \"c\": 3})\n>       assert s[\"b\"] == 29\nE       assert 0 == 29\n\ntest_something.py:10: AssertionError\n------------ generated xml file: /tmp/bsess-out-vadr_pw2/junit.xml -------------\n=========================== short test summary info ============================\nERROR test_something.py::test_alt_list - Failed: some snapshots in this test ...\nERROR test_something.py::test_alt_dict - Failed: some snapshots in this test ...\nFAILED test_something.py::test_alt_list - assert [0, 2, 29] == [1, 2, 3]\nFAILED test_something.py::test_alt_dict - assert 0 == 29\n========================= 2 failed, 2 errors in 2.07s =========================="
+ "detail": "C19: run_inline reported categories ['fix', 'update'] but the report session lists ['fix', 'trim', 'update']\n________________________________ test_alt_list _________________________________\n\n    def test_alt_list():\n>       assert [0, 2, 29] == snapshot([1, 1 + 1, 3])\nE       assert [0, 2, 29] == [1, 2, 3]\nE         \nE         At index 0 diff: 0 != 1\nE         Use -v to get more diff\n\ntest_something.py:5: AssertionError\n________________________________ test_alt_dict _________________________________\n\n    def test_alt_dict():\n        s = snapshot({\"a\": 1, \"b\": 0, \"c\": 3})\n>       assert s[\"b\"] == 29\nE       assert 0 == 29\n\ntest_something.py:10: AssertionError\n------------ generated xml file: /tmp/bsess-out-kv44ey9b/junit.xml -------------\n=========================== short test summary info ============================\nERROR test_something.py::test_alt_list - Failed: some snapshots in this test ...\nERROR test_something.py::test_alt_dict - Failed: some snapshots in this test ...\nFAILED test_something.py::test_alt_list - assert [0, 2, 29] == [1, 2, 3]\nFAILED test_something.py::test_alt_dict - assert 0 == 29\n========================= 2 failed, 2 errors in 1.34s =========================="
 }
 """
 
